@@ -449,3 +449,6 @@ Definition errn_varlong (s : list N) : N := errn_var packet_MaxVarLongLen s.
 Definition nbtfield_errn_any (fuel : nat) (s : list N) : N := nbtfield_errn (dec_any fuel) s.
 Definition st_zero := C03.zero.
 Definition st_depth := C03.sdepth.
+
+(* ---- phase 3: both reader clauses at once *)
+Definition stream_safe {A} (d : dec A) : Prop := frag_invariant d /\ fault_safe d.
